@@ -133,6 +133,7 @@ let handle (req : json) : unit =
     | "len", [s] -> p_nat (len_selfies (j_str s))
     | "alphabet", [ss] -> p_res (p_list p_str) (get_alphabet_from_selfies (j_list j_str ss))
     | "idx_from", [syms] -> p_n (get_index_from_selfies (j_list (j_opt j_str) syms))
+    | "spec_idx", [syms] -> p_n (doc_value (List.map doc_digit (j_list (j_opt j_str) syms)))
     | "idx_to", [n] -> p_res (p_list p_str) (get_selfies_from_index (j_z n))
     | "modernize", [s] -> p_res p_str (modernize_symbol (j_str s))
     | "atom_sym", [t; s] ->
